@@ -15,7 +15,7 @@
   Core Lean only.
 -/
 import NngModel.Base.Bytes
-import NngModel.Generated.Consts
+import NngModel.Generated.C16
 namespace Nng.Ws
 
 structure Cfg where
